@@ -43,6 +43,11 @@ class VfsUnsupported(Exception):
     """The code under test used an OS facility the virtual filesystem does not model."""
 
 
+class ChildKilled(BaseException):
+    """Raised by the scheduler hook inside the scripted compiler: the compiler
+    child process is killed by a signal, the calling process survives."""
+
+
 def norm(path):
     return _os.path.normpath(_os.path.abspath(_os.path.expanduser(str(path))))
 
@@ -432,10 +437,15 @@ class ScriptedCompiler:
             raise _subprocess.CalledProcessError(1, command, output=b"cc: syntax error (vfs: truncated source)")
         image = library_image(text)
         half = len(image) // 2
-        vfs._pt("cc-half1", out)
-        vfs.compiles += 1
-        ino = vfs.files[out] = Inode(image[:half], False, vfs._now(), "lib")
-        vfs._pt("cc-half2", out)
+        try:
+            vfs._pt("cc-half1", out)
+            vfs.compiles += 1
+            ino = vfs.files[out] = Inode(image[:half], False, vfs._now(), "lib")
+            vfs._pt("cc-half2", out)
+        except ChildKilled:
+            # what subprocess reports for a child that died from SIGKILL; whatever
+            # the compiler had written so far stays where it is
+            raise _subprocess.CalledProcessError(-9, command, output=b"")
         ino.data = image
         ino.complete = True
         ino.mtime = vfs._now()
